@@ -255,6 +255,20 @@ func (r *rewriter) rewrite() bool {
 	// facts that need type information, gathered on the untouched tree
 	ast.Inspect(r.file, func(n ast.Node) bool {
 		switch x := n.(type) {
+		case *ast.SelectorExpr:
+			// blocking or time-dependent library calls the simulator has no model
+			// for: refusing (exit 2) is the honest answer, a run in which a real
+			// timer or goroutine acts behind the scheduler's back is not
+			if pkg, ok := x.X.(*ast.Ident); ok {
+				if pn, isPkg := r.info.Uses[pkg].(*types.PkgName); isPkg {
+					full := pn.Imported().Path() + "." + x.Sel.Name
+					switch full {
+					case "context.WithTimeout", "context.WithDeadline", "context.WithTimeoutCause", "context.WithDeadlineCause", "context.AfterFunc",
+						"reflect.Select", "runtime.Gosched", "runtime.LockOSThread", "os/signal.Notify", "runtime.SetFinalizer":
+						die("%s: %s is not modelled by the simulator (it would act outside the scheduler's control)", r.pos(x), full)
+					}
+				}
+			}
 		case *ast.RangeStmt:
 			r.rkind[x] = coreKind(r.info.TypeOf(x.X))
 		case *ast.GoStmt:
